@@ -1283,7 +1283,7 @@ class VM:
             return ",".join(array_elem_to_string(elem) for elem in arr._elements)
 
         def join_fn(*args):
-            sep = "," if not args else to_string(args[0])
+            sep = "," if not args or args[0] is UNDEFINED else to_string(args[0])
             return sep.join(array_elem_to_string(elem) for elem in arr._elements)
 
         def map_fn(*args):
@@ -1714,7 +1714,7 @@ class VM:
             return ",".join(str(arr.get_index(i)) for i in range(arr.length))
 
         def join_fn(*args):
-            separator = to_string(args[0]) if args else ","
+            separator = to_string(args[0]) if args and args[0] is not UNDEFINED else ","
             return separator.join(str(arr.get_index(i)) for i in range(arr.length))
 
         def subarray_fn(*args):
